@@ -31,6 +31,7 @@ type Stats struct {
 	StepsPerRun    []int
 	Switches       int64
 	SwitchSigs     map[string]bool
+	LockSigs       map[string]bool
 	NontrivialSig  map[string]bool
 	TraceHashes    map[string]bool
 	Policies       map[string]int
@@ -56,7 +57,7 @@ type Stats struct {
 }
 
 func newStats() *Stats {
-	return &Stats{SwitchSigs: map[string]bool{}, NontrivialSig: map[string]bool{}, TraceHashes: map[string]bool{}, Policies: map[string]int{}, Workers: map[int]int{},
+	return &Stats{LockSigs: map[string]bool{}, SwitchSigs: map[string]bool{}, NontrivialSig: map[string]bool{}, TraceHashes: map[string]bool{}, Policies: map[string]int{}, Workers: map[int]int{},
 		Faults: map[string]int{}, Sites: map[string]int{}, OtherClasses: map[string]int{}, CallKinds: map[string]int{}, OutcomeKinds: map[string]int{}, BitStats: map[string]int{}, DistinctCalls: map[string]bool{}}
 }
 
@@ -98,6 +99,9 @@ func (st *Stats) addRun(seg *Segment, race bool, out *RunOut) {
 	st.StepsPerRun = append(st.StepsPerRun, r.Steps)
 	st.Switches += int64(r.Switches)
 	st.SwitchSigs[r.SwitchSig] = true
+	if r.LockSig != "" && w > 1 {
+		st.LockSigs[r.LockSig] = true
+	}
 	st.TraceHashes[r.TraceHash] = true
 	if r.Switches > 0 {
 		st.NontrivialSig[r.SwitchSig] = true
@@ -417,6 +421,11 @@ func (ck *Checker) writeEvidence(violations int, rule string, extra map[string]a
 		"sites_hit":                           st.Sites,
 		"sites_never_hit":                     never,
 		"lock_waits":                          st.LockWaits,
+		"distinct_lock_acquisition_orders":    len(st.LockSigs),
+		"fairness_interventions":              st.FairKicks,
+		"capacity_boundary_probes":            ck.probes,
+		"capacity_boundary_groups":            st.BoundaryGroups,
+		"capacity_boundary_calls":             st.BoundaryCalls,
 		"library_goroutines_spawned":          st.Spawned,
 		"race_build_segments":                 st.RaceSegments,
 		"race_reports":                        st.RaceReports,
